@@ -239,9 +239,18 @@ fn generate_runs(run_seed: u64, tier: Tier) -> RunsScenario {
         let r = gen_resp(&mut rng, &mut uniq, true, i);
         script.push(r);
     }
-    // the last scripted response repeats for all further requests: it never asks for tools
-    let r = gen_resp(&mut rng, &mut uniq, false, n_resp);
-    script.push(r);
+    // the last scripted response repeats for all further requests: usually it never asks for
+    // tools; 1 in 6 keeps asking for one (possibly one the tool choice bars), so that only the
+    // engine's own bound can end the run
+    if rng.chance(1, 6) {
+        uniq += 1;
+        let name = *rng.pick(&["ls", "read", "write", "no_such_tool"]);
+        let args = gen_tool_call_args(&mut rng, name, uniq);
+        script.push(Resp::Sse { events: vec![SseEv::Created { id: format!("resp_{n_resp}") }, SseEv::FnCall { output_index: 0, item_id: Some(format!("fc_{uniq}")), call_id: Some(format!("call_{uniq}")), name: name.to_string(), args, mode: ArgMode::Inline, never_done: false, omit_call_id_on_done: false }, SseEv::Completed { id: format!("resp_{n_resp}") }], interleave: false, done: DoneMode::Present, chunking: Chunking::Whole, drop_after: None, crlf: false });
+    } else {
+        let r = gen_resp(&mut rng, &mut uniq, false, n_resp);
+        script.push(r);
+    }
     let mut steps = Vec::new();
     let n = rng.range(1, if tier == Tier::Quick { 4 } else { 6 });
     let mut branched = false;
@@ -517,6 +526,15 @@ pub fn wait_runs(engine: &Engine, posts: &[PostRec], sessions: &[String], seen_p
             last_change = std::time::Instant::now();
         }
         panics.extend(esim::panics_take());
+        // a run that keeps calling tools without end never reaches its closing frames
+        let mut per_session: BTreeMap<&str, usize> = BTreeMap::new();
+        for f in t.frames.iter().filter(|f| f.ty == "tool_started") {
+            *per_session.entry(f.stream_id.as_str()).or_insert(0) += 1;
+        }
+        if let Some((sid, n)) = per_session.iter().find(|(sid, n)| **n > 100 && !t.frames.iter().any(|f| f.stream_id == **sid && f.ty == "session_ended")) {
+            stuck = Some(format!("session {sid} has handled {n} tool calls and is still running"));
+            return true;
+        }
         let idle = last_change.elapsed();
         if (!panics.is_empty() && idle > Duration::from_millis(1500)) || idle > Duration::from_secs(20) {
             stuck = Some(format!("no new frame for {:?}", idle));
@@ -691,7 +709,13 @@ fn execute_runs(sc: &RunsScenario, env: &Env) -> (Outcome, RunStats) {
                 let t = crate::model::parse_truth_file(&engine.data.join("events.jsonl")).unwrap_or_default();
                 posts.iter().filter(|p| !t.frames.iter().any(|f| f.ty == "continuity_run_ended" && f.s("run_session_id") == Some(p.session_id.as_str()))).map(|p| p.session_id.as_str()).collect::<Vec<_>>().into_iter().map(|_| "run").chain(sessions.iter().filter(|s| !t.frames.iter().any(|f| f.ty == "session_ended" && f.stream_id == **s)).map(|_| "session")).collect()
             };
-            let sig = if panics.is_empty() { "run_never_ended:no_progress".to_string() } else { "run_never_ended:task_panicked".to_string() };
+            let sig = if detail.contains("tool calls and is still running") {
+                "run_never_ended:unbounded_tool_loop".to_string()
+            } else if panics.is_empty() {
+                "run_never_ended:no_progress".to_string()
+            } else {
+                "run_never_ended:task_panicked".to_string()
+            };
             return (Outcome::Violation(viol("run_never_ended", sig, format!("{} unfinished ({:?}); {detail}; panics: {:?}", unfinished.len(), unfinished, panics))), stats);
         }
     };
@@ -903,7 +927,7 @@ impl Check for C07 {
         3
     }
     fn rule(&self) -> String {
-        "one run = one seeded scenario. 4 of 5 are engine scenarios: a provider configuration (tool_choice auto/none/required/named/allowed-tools, both history modes), a provider script of 2-8 responses (SSE with text, 0-3 function calls over 9 tool names incl. an unknown one with valid/invalid/non-JSON arguments delivered inline, as deltas or by a done event, invalid-JSON and schema-invalid events, [DONE] present/missing/twice, CRLF, 4 chunking modes, connection drop at a seeded byte; HTTP errors 400-503 with bodies of 0-9000 bytes incl. multi-byte text around byte 2048 that may echo the request; empty body; garbage; close without response) and 1-6 steps (post a prompt / tool envelope incl. timeout, unknown tool, invalid args / checkpoint create or rewind / malformed envelope to the default thread or a branch, waiting or in parallel with earlier runs; thread-less sessions; make the artifact store unwritable so context compilation fails, and restore it). 1 of 5 are job scenarios: messages then 1-3 compaction-auto / schedule(execute) calls through the store's synchronous drivers with the k-th artifact write/create/rename inside one of them failing with ENOSPC/EIO/EACCES. After quiescence the log is parsed independently and checked: per accepted post exactly one run_spawned naming the returned session and exactly one run_ended; message < spawned < [selection_decided < context_compiled] < side-effects* < cursor_updated? < run_ended in file order; selection and compile both or neither, present whenever the provider was contacted and absent after context_compile_failed; the run's session_ended precedes run_ended; each session stream starts with session_started at seq 0, has exactly one session_ended which is its last frame and carries its highest seq; no run frames without a post; each job id spawned once, ended at most once and after its spawn; no engine task panics; a run that never ends (no new frame for 1.5 s after a task panic, or 20 s otherwise) is a violation. distinct = hash of the scenario; non-trivial = a tool ran or a provider fault was served (engine) / a fault was injected inside a spawned job (jobs)".into()
+        "one run = one seeded scenario. 4 of 5 are engine scenarios: a provider configuration (tool_choice auto/none/required/named/allowed-tools, both history modes), a provider script of 2-8 responses (SSE with text, 0-3 function calls over 9 tool names incl. an unknown one with valid/invalid/non-JSON arguments delivered inline, as deltas or by a done event, invalid-JSON and schema-invalid events, [DONE] present/missing/twice, CRLF, 4 chunking modes, connection drop at a seeded byte; HTTP errors 400-503 with bodies of 0-9000 bytes incl. multi-byte text around byte 2048 that may echo the request; empty body; garbage; close without response; in 1 of 6 scenarios the last response, served to every later request, keeps asking for a tool so that only the engine's bound can end the run) and 1-6 steps (post a prompt / tool envelope incl. timeout, unknown tool, invalid args / checkpoint create or rewind / malformed envelope to the default thread or a branch, waiting or in parallel with earlier runs; thread-less sessions; make the artifact store unwritable so context compilation fails, and restore it). 1 of 5 are job scenarios: messages then 1-3 compaction-auto / schedule(execute) calls through the store's synchronous drivers with the k-th artifact write/create/rename inside one of them failing with ENOSPC/EIO/EACCES. After quiescence the log is parsed independently and checked: per accepted post exactly one run_spawned naming the returned session and exactly one run_ended; message < spawned < [selection_decided < context_compiled] < side-effects* < cursor_updated? < run_ended in file order; selection and compile both or neither, present whenever the provider was contacted and absent after context_compile_failed; the run's session_ended precedes run_ended; each session stream starts with session_started at seq 0, has exactly one session_ended which is its last frame and carries its highest seq; no run frames without a post; each job id spawned once, ended at most once and after its spawn; no engine task panics; a run that never ends (no new frame for 1.5 s after a task panic, or 20 s otherwise, or more than 100 tool calls handled without a session end) is a violation. distinct = hash of the scenario; non-trivial = a tool ran or a provider fault was served (engine) / a fault was injected inside a spawned job (jobs)".into()
     }
     fn assumptions(&self) -> Vec<String> {
         vec![
